@@ -134,7 +134,7 @@ def make_call(rng, entry):
             'r_out_attrs': pick_attrs(rng, R, 'rkey', 'rjoin')}
     r = rng.random()
     if r < 0.25:
-        call['l_out_prefix'], call['r_out_prefix'] = rng.choice([('left.', 'right.'), ('A_', 'B_'), ('', 'r_')])
+        call['l_out_prefix'], call['r_out_prefix'] = rng.choice([('left.', 'right.'), ('A_', 'B_'), ('', 'r_'), ('x', 'xx'), ('l_', 'l_r_')])
     elif r < 0.35:
         call['l_out_prefix'] = call['r_out_prefix'] = rng.choice(['', 't_'])   # names are disjoint
     if rng.random() < 0.15:
